@@ -67,10 +67,13 @@ CLAIMED.update({
               "clone_shifted are pointwise; the truncation loop is proved to compute the shortest non-empty prefix "
               "reaching the threshold (all peaks when never reached) via a loop invariant; ignore_below is the "
               "order-preserving filter; both renormalise.  Tied to the code by running identical dyadic inputs "
-              "(exact in f64) through the real operations and the model."),
+              "(exact in f64) through the real operations and the model.  Props/C13Float.lean proves total/normalize under "
+              "the standard model of floating-point arithmetic (any rounding with relative error u): the exact sum of "
+              "the computed intensities is within (1+u)^2/(1-u)^n of 1 (1e-14 for binary64, n <= 64), ratios are "
+              "preserved up to (1+u)/(1-u); the check asserts that bound on the real outputs."),
         design_ref="§7.13",
-        note=NOTE_COMMON + " Partial (floating point): theorems are over Q; f64 results compared to the exact values at 1e-11 relative, comparisons within 1e-9 of a threshold on inexact inputs skipped and counted.",
-        technique="Lean 4 list/field proofs with a loop invariant + differential correspondence on exact dyadic inputs"),
+        note=NOTE_COMMON + " Partial (floating point): the truncation / filter theorems are over Q; normalize and total are also proved under the standard rounding model (trusted: f64 satisfies it, no overflow/underflow); other f64 results compared to the exact values at 1e-11 relative, comparisons within 1e-9 of a threshold on inexact inputs skipped and counted.",
+        technique="Lean 4 list/field proofs with a loop invariant + rounding-error bounds under the standard floating-point model + differential correspondence on exact dyadic inputs"),
     "C14": dict(
         text=("Proof over exact rationals: the fused truncate/filter/shift/normalise operation returns the same peaks "
               "as the step-wise pipeline (algebraic proof for every non-empty positive pattern and all thresholds); "
@@ -180,7 +183,7 @@ CLAIMED.update({
               "non-emptiness, strictly increasing m/z within [lightest, heaviest], normalisation over the requested "
               "range, coverage of every variant with share >= 2e-10 judged against the exact distribution."),
         design_ref="§7.9",
-        note=NOTE_COMMON + " Partial: strict increase of centre masses is observed against the exact oracle, not proved; f64 not modelled. D5 findings as for C03.",
+        note=NOTE_COMMON + " Partial: strict increase of the centre masses is proved for variants j <= 107 of every composition over Dom table elements (Props/C09Strict, Inst/C09Strict) and observed against the exact oracle beyond that; f64 not modelled. D5 findings as for C03.",
         technique="Lean 4 proofs about request resolution, cut and sort + differential correspondence against an exact oracle"),
 })
 
